@@ -25,6 +25,19 @@ def _n(log):
     return len(log)
 
 
+STOREDf = z3.Function("RUN_ALREADY_STORED", z3.StringSort(), z3.BoolSort())     # a RecentRun row with that run id exists
+
+
+def get_by_run_id(ctx, args, kwargs):
+    """RecentRunRepository.get_by_run_id(run_id): the stored run with that id, or None (ghost predicate RUN_ALREADY_STORED)"""
+    if ctx.decide(STOREDf(SVs(args[0].term)), "a recent run with this id is already stored"):
+        return ctx.fresh("recent_run_row", "RecentRun")
+    return ctx.none()
+
+
+get_by_run_id.modifies = []
+
+
 def run_started_exit(ctx, kind, result):
     if kind != "return":
         return
@@ -34,14 +47,19 @@ def run_started_exit(ctx, kind, result):
     ED = "self._engine_data_map[msg.engine_id]"
     active0 = ctx.spec_bool(f"old({ED}._run_data is not None)")
     same0 = ctx.spec_bool(f"old({ED}._run_data.run_id == msg.run_id)")
+    ended = z3.And(STOREDf(SVs(ctx.spec("msg.run_id").term)), z3.Not(z3.And(active0, same0)))   # the run named by the message has ended and is stored
     B = z3.BoolVal
     ctx.check("unknown-engine:nothing-created", z3.Implies(z3.Not(known), B(len(plots) == 0 and len(stores) == 0)), "postcondition")
+    ctx.check("resent-for-a-run-that-has-ended:nothing-created-nothing-stored",
+              z3.Implies(z3.And(known, ended), B(len(plots) == 0 and len(stores) == 0)), "postcondition")
+    ctx.check("resent-for-a-run-that-has-ended:active-run-unchanged",
+              z3.Implies(z3.And(known, ended), ctx.spec_bool(f"{ED}._run_data is old({ED}._run_data)")), "postcondition")
     ctx.check("new-run:exactly-one-plot-log-and-no-recent-run",
-              z3.Implies(z3.And(known, z3.Not(active0)), B(len(plots) == 1 and len(stores) == 0)), "postcondition")
+              z3.Implies(z3.And(known, z3.Not(active0), z3.Not(ended)), B(len(plots) == 1 and len(stores) == 0)), "postcondition")
     ctx.check("duplicate-run-started:no-second-plot-log-no-recent-run",
               z3.Implies(z3.And(known, active0, same0), B(len(plots) == 0 and len(stores) == 0)), "postcondition")
     ctx.check("other-run-active:old-run-stored-once-new-run-gets-one-plot-log",
-              z3.Implies(z3.And(known, active0, z3.Not(same0)), B(len(plots) == 1 and len(stores) == 1)), "postcondition")
+              z3.Implies(z3.And(known, active0, z3.Not(same0), z3.Not(ended)), B(len(plots) == 1 and len(stores) == 1)), "postcondition")
     for (args, kw) in plots:
         ctx.check("plot-log-is-for-the-started-run", SVs(args[1].term) == SVs(ctx.spec("msg.run_id").term), "postcondition")
     if plots:
@@ -96,13 +114,27 @@ def store_at_call(key):
 
 CALLS_STOP = dict(CALLS, **{"*.store_recent_run": store_at_call("store_recent_run")})
 
+
+def store_superseded(ctx, args, kwargs):
+    """store_recent_run(engine_data) in run_started: what is stored must be the run that was active when the message arrived (the
+    engine data still carries that run object), not the run that is being started"""
+    ED = "self._engine_data_map[msg.engine_id]"
+    ctx.check("the-stored-run-is-the-superseded-one", ctx.spec_bool(f"{ED}._run_data is not None and {ED}._run_data is old({ED}._run_data)"),
+              "call-site")
+    return logged("store_recent_run")(ctx, args, kwargs)
+
+
+store_superseded.modifies = []
+CALLS_START = dict(CALLS, **{"*.store_recent_run": store_superseded, "*.get_by_run_id": get_by_run_id})
+
 CONTRACTS = [
-    Contract(target=A + "FromEngine.run_started", types=TYPES, calls=CALLS, raises={}, on_exit=run_started_exit),
+    Contract(target=A + "FromEngine.run_started", types=TYPES, calls=CALLS_START, raises={}, on_exit=run_started_exit),
     Contract(target=A + "FromEngine.run_stopped", types=dict(TYPES, msg="RunStoppedMsg"), calls=CALLS_STOP, raises={}, on_exit=run_stopped_exit),
     Contract(target=A + "FromEngine.engine_disconnected", types=TYPES, calls=CALLS, raises={}, on_exit=disconnected_exit),
 ]
 TARGETS = [c.target for c in CONTRACTS]
-TRUSTED = ["create_plot_log adds exactly one PlotLog row for the given run id; store_recent_run adds exactly one RecentRun row for engine_data's run "
+TRUSTED = ["RecentRunRepository.get_by_run_id(id) is not None exactly when a recent run with that id has been stored (ghost predicate)",
+           "create_plot_log adds exactly one PlotLog row for the given run id; store_recent_run adds exactly one RecentRun row for engine_data's run "
            "(it may raise; the handlers in run_stopped catch that)", "database scope / session / publisher calls do not touch aggregator run state",
            "in run_started the store of a superseded, still active run is assumed to succeed: a database failure is not among the disturbances the "
            "property quantifies over (observed by a seed agent, not claimed either way: if that store raises, the new run's plot log is still created "
@@ -115,6 +147,9 @@ EXPLANATION = "Path-complete postconditions over ghost logs of repository calls 
 
 def replay(obligation, witness):
     import contracts.agg_native as n
+    if "resent-for-a-run-that-has-ended" in obligation:
+        r = n.scenario_run_started_resent_after_the_run_stopped()
+        return {"confirmed": r["violated"], "scenario": r}
     r = n.scenario_duplicate_run_started()
     return {"confirmed": r["violated"], "scenario": r}
 
@@ -125,5 +160,11 @@ def _nat():
     return {"ok": not r["violated"], "observation": r}
 
 
-NATIVE = [("native:duplicate-start-and-stop", _nat)]
+def _nat2():
+    import contracts.agg_native as n
+    r = n.scenario_run_started_resent_after_the_run_stopped()
+    return {"ok": not r["violated"], "observation": r}
+
+
+NATIVE = [("native:duplicate-start-and-stop", _nat), ("native:run-started-resent-after-the-run-stopped", _nat2)]
 BOUNDED = ["native scenario run_started x2 / run_stopped x2 on the real FromEngine with counting fake repositories (bounded, not counted as proved)"]
